@@ -349,7 +349,18 @@ func genBlock(r *rand.Rand, mode int) Block {
 		}
 		b.Lines = append(b.Lines, l)
 	}
-	if mode == 0 && r.Intn(8) == 0 {
+	if mode == 0 && r.Intn(12) == 0 {
+		// a blank (ASCII or not) after the closing parenthesis of annotation lines WITHOUT description: whether it
+		// is an (all blank) description or nothing is not stated, but the line still is an annotation line
+		trail := []string{" ", "\t", "\u00a0", "\u3000", " \u2003"}[r.Intn(5)]
+		for i := range b.Lines {
+			l := &b.Lines[i]
+			if l.Class == "attr" && l.Desc == "" && l.Name != "Description" && strings.HasSuffix(l.Text, ")") {
+				l.Trail = trail
+				l.Text += trail
+			}
+		}
+	} else if mode == 0 && r.Intn(8) == 0 {
 		// trailing blanks on every described annotation line of this block
 		trail := []string{" ", "\t", "  \t "}[r.Intn(3)]
 		for i := range b.Lines {
@@ -475,7 +486,11 @@ func Check(res *report.Result, b Block) {
 	trailPolicy := map[string]string{} // policy -> line that showed it
 	for i, w := range wantAttrs {
 		g := got[i]
-		if w.Trail != "" {
+		if w.Trail != "" && w.Desc == "" {
+			if g.Description == w.Trail || strings.TrimSpace(g.Description) == "" {
+				g.Description = ""
+			}
+		} else if w.Trail != "" {
 			switch g.Description {
 			case w.Desc:
 				trailPolicy["trimmed"] = w.Text
